@@ -457,10 +457,6 @@ example :
 def cropOut {α} (x0 x1 y0 y1 : Option Int) (o : OutPage α) : OutPage α :=
   { o with img := pySlice2 o.img x0 x1 y0 y1 }
 
-/-- Every raw page of the file has `H` rows of `W` pixels. -/
-def File.Shaped {α} (f : File α) (H W : Nat) : Prop :=
-  ∀ p ∈ f.pages, p.img.length = H ∧ ∀ row ∈ p.img, row.length = W
-
 /-- ROI selection (also for legacy files, also after any frame selection).  When
     `stack.crop_by_pixels(x0, x1, y0, y1)` (equally `stack[:, y0:y1, x0:x1]`) is a stack, exporting it writes the
     pages of `stack` with every image replaced by its NumPy slice `img[y0:y1, x0:x1]` — `None`, negative and
@@ -729,5 +725,173 @@ theorem reexport_after_export_float {α} (s : Stack) (f : File α) (H W : Nat) (
     exportPages (Stack.ofFile (readBackF out)) (readBackF out) = .ok out := by
   obtain ⟨hu, hne⟩ := export_uniform s f H W hf hr out h
   exact reexport_fixed_point_float out _ _ hne hu hexp
+
+/-! ## Tuple index, and whole selection programs -/
+
+/-- `stack[f, rows, cols]` is `stack.crop_by_pixels(cols…, rows…)[f]` — refusals included (the crop is tried first);
+    an integer item `k` of the tuple selects `k : k+1`, a stepped slice is refused. -/
+theorem tuple_index_is_crop_then_frames (s : Stack) (f rows cols : Item) (x0 x1 y0 y1 : Option Int)
+    (hr : interpretCrop rows = .ok (y0, y1)) (hc : interpretCrop cols = .ok (x0, x1)) :
+    s.getitemTuple [f, rows, cols] = (s.cropPixels x0 x1 y0 y1).bind fun s' => s'.frameItem f :=
+  tuple_index_eq s f rows cols x0 x1 y0 y1 hr hc
+
+example : interpretCrop (.slice (some 1) none none) = .ok (some 1, none) ∧ interpretCrop (.int 2) = .ok (some 2, some 3) := by
+  decide
+
+/-- Hence `stack[a:b:c, y0:y1, x0:x1]` exports the pages `[a:b:c]` of what `stack` exports, every image cropped to
+    `img[y0:y1, x0:x1]`, and the result again satisfies the hypotheses. -/
+theorem export_selection_tuple {α} (s : Stack) (f : File α) (H W : Nat) (hi : s.Inv f H W) (hleg : f.legacy = false)
+    (hf : f.Shaped H W) (a b c : Option Int) (rows cols : Item) (x0 x1 y0 y1 : Option Int)
+    (hr : interpretCrop rows = .ok (y0, y1)) (hc : interpretCrop cols = .ok (x0, x1)) (s'' : Stack)
+    (h : s.getitemTuple [.slice a b c, rows, cols] = .ok s'') :
+    ∃ out, exportPages s f = .ok out ∧
+      exportPages s'' f = .ok (pySliceStep (out.map (cropOut x0 x1 y0 y1)) a b (c.getD 1).toNat) ∧
+      s''.Inv f H W := by
+  have hinv := getitemTuple_inv s f H W hi _ s'' h
+  rw [tuple_index_eq s _ rows cols x0 x1 y0 y1 hr hc] at h
+  cases hcp : s.cropPixels x0 x1 y0 y1 with
+  | error e => rw [hcp] at h; cases h
+  | ok s' =>
+    rw [hcp] at h
+    have hsl : s'.sliceFrames a b c = .ok s'' := h
+    have hroi := export_selection_roi s f H W hf hi.2.2 x0 x1 y0 y1
+    rw [hcp] at hroi
+    simp only at hroi
+    obtain ⟨hexp, _, hfr, hst⟩ := hroi
+    have hi' := cropPixels_inv s f H W hi x0 x1 y0 y1 s' hcp
+    have hcpos := sliceFrames_ok_step s' hi'.1 a b c s'' hsl
+    have hframes := export_selection_frames s' f hi'.1 hleg hi'.2.1 a b c hcpos
+    rw [hsl] at hframes
+    simp only at hframes
+    obtain ⟨out', ho', hs'', _⟩ := hframes
+    rw [ho'] at hexp
+    cases hs : exportPages s f with
+    | error e => rw [hs] at hexp; cases hexp
+    | ok out =>
+      rw [hs] at hexp
+      have : out' = out.map (cropOut x0 x1 y0 y1) := by
+        simpa [Except.map] using hexp
+      exact ⟨out, rfl, by rw [hs'', this], hinv⟩
+
+/-- The selection a program of public steps describes, on the exported pages (Python / NumPy slicing). -/
+def specOp {α} (out : List (OutPage α)) : Op → Option (List (OutPage α))
+  | .slice a b c => some (pySliceStep out a b (c.getD 1).toNat)
+  | .index i => (pyIndex out i).map fun o => [o]
+  | .crop x0 x1 y0 y1 => some (out.map (cropOut x0 x1 y0 y1))
+  | _ => none
+
+def specRun {α} : List (OutPage α) → List Op → Option (List (OutPage α))
+  | out, [] => some out
+  | out, op :: rest => (specOp out op).bind fun o => specRun o rest
+
+def Op.isBasic : Op → Bool
+  | .slice .. => true
+  | .index .. => true
+  | .crop .. => true
+  | _ => false
+
+/-- Composition at any depth: when a chain of frame slices, integer indices and pixel crops is accepted, exporting
+    the result writes exactly what the same chain of Python / NumPy selections makes of the pages the original stack
+    exports (modern files). -/
+theorem export_program_selection {α} (f : File α) (H W : Nat) (hleg : f.legacy = false) (hf : f.Shaped H W)
+    (ops : List Op) : ∀ (s : Stack), s.Inv f H W → (∀ op ∈ ops, op.isBasic = true) →
+      ∀ out, exportPages s f = .ok out → ∀ s', s.run ops = .ok s' →
+        ∃ out', specRun out ops = some out' ∧ exportPages s' f = .ok out' := by
+  induction ops with
+  | nil =>
+    intro s _ _ out hout s' h
+    unfold Stack.run at h
+    cases h
+    exact ⟨out, rfl, hout⟩
+  | cons op rest ih =>
+    intro s hi hb out hout s' h
+    unfold Stack.run at h
+    cases ha : s.applyOp op with
+    | error e => rw [ha] at h; cases h
+    | ok s1 =>
+      rw [ha] at h
+      have hb1 := hb op (List.mem_cons_self ..)
+      have hi1 : s1.Inv f H W := applyOp_inv s f H W hi op (by cases op <;> first | rfl | cases hb1) s1 ha
+      have hrest := fun o ho => hb o (List.mem_cons_of_mem _ ho)
+      have step : ∃ out1, specOp out op = some out1 ∧ exportPages s1 f = .ok out1 := by
+        cases op with
+        | slice a b c =>
+          have hsl : s.sliceFrames a b c = .ok s1 := ha
+          have hc := sliceFrames_ok_step s hi.1 a b c s1 hsl
+          have h0 := export_selection_frames s f hi.1 hleg hi.2.1 a b c hc
+          rw [hsl] at h0
+          simp only at h0
+          obtain ⟨out0, ho0, hs1, _⟩ := h0
+          rw [hout] at ho0
+          cases ho0
+          exact ⟨_, rfl, hs1⟩
+        | index i =>
+          have hix : s.index i = .ok s1 := ha
+          have h0 := export_selection_index s f hi.1 hleg hi.2.1 i
+          rw [hix] at h0
+          simp only at h0
+          obtain ⟨out0, o, ho0, hpi, hs1⟩ := h0
+          rw [hout] at ho0
+          cases ho0
+          exact ⟨[o], by simp [specOp, hpi], hs1⟩
+        | crop x0 x1 y0 y1 =>
+          have hcp : s.cropPixels x0 x1 y0 y1 = .ok s1 := ha
+          have h0 := export_selection_roi s f H W hf hi.2.2 x0 x1 y0 y1
+          rw [hcp] at h0
+          simp only at h0
+          refine ⟨_, rfl, ?_⟩
+          rw [h0.1, hout]
+          rfl
+        | tuple items => cases hb1
+        | dataset a b c => cases hb1
+      obtain ⟨out1, hspec, hexp1⟩ := step
+      obtain ⟨out', hs', he'⟩ := ih s1 hi1 hrest out1 hexp1 s' h
+      exact ⟨out', by unfold specRun; rw [hspec]; exact hs', he'⟩
+
+/-- The hypotheses of the selection and re-export theorems are ESTABLISHED by the code: opening a well-shaped,
+    non-empty file and running ANY accepted chain of public selections (slices, indices, crops, tuple indices, to any
+    depth) yields a stack with a positive step, inside the file, with a non-empty ROI inside the image. -/
+theorem program_establishes_hypotheses {α} (f : File α) (H W : Nat) (hf : f.Shaped H W) (hne : f.pages ≠ [])
+    (hH : 0 < H) (hW : 0 < W) (ops : List Op) (hp : ∀ op ∈ ops, op.isPublic = true) (s : Stack)
+    (h : (Stack.ofFile f).run ops = .ok s) :
+    0 < s.st ∧ s.inFile f.pages.length = true ∧ s.roi.Within H W :=
+  run_inv f H W ops _ (ofFile_inv f H W hf hne hH hW) hp s h
+
+/-- Export → reopen (through the float exposure key) → export is the identity on the written pages, for every
+    accepted chain of public selections on every well-shaped file, legacy or not, with exposures up to `10^15` ns —
+    no hypothesis on the state any more. -/
+theorem program_reexport {α} (f : File α) (H W : Nat) (hf : f.Shaped H W) (hne : f.pages ≠ [])
+    (hH : 0 < H) (hW : 0 < W) (ops : List Op) (hp : ∀ op ∈ ops, op.isPublic = true) (s : Stack)
+    (h : (Stack.ofFile f).run ops = .ok s) (out : List (OutPage α)) (hout : exportPages s f = .ok out)
+    (hexp : ∀ o ∈ out, o.exposure.natAbs ≤ 10 ^ 15) :
+    exportPages (Stack.ofFile (readBackF out)) (readBackF out) = .ok out :=
+  reexport_after_export_float s f H W hf (program_establishes_hypotheses f H W hf hne hH hW ops hp s h).2.2 out hout hexp
+
+
+/-- Non-vacuity: a 4-page file of 2×3 pixels, `stack[1::2]`, then `[:, 1:, -2:]` as a tuple, then `[-1]`. -/
+def demoFile : File Int := ⟨[⟨10, 18, 15, [[0, 1, 2], [3, 4, 5]]⟩, ⟨20, 28, 25, [[6, 7, 8], [9, 10, 11]]⟩,
+  ⟨30, 38, 35, [[12, 13, 14], [15, 16, 17]]⟩, ⟨40, 48, 45, [[18, 19, 20], [21, 22, 23]]⟩], false⟩
+
+example : demoFile.Shaped 2 3 := by
+  intro p hp
+  simp [demoFile] at hp
+  rcases hp with rfl | rfl | rfl | rfl <;> simp
+
+example : (Stack.ofFile demoFile).run [.slice (some 1) none (some 2), .tuple [.slice none none none, .slice (some 1) none none,
+    .slice (some (-2)) none none], .index (-1)] = .ok ⟨3, 5, 2, ⟨1, 3, 1, 2⟩⟩ := by decide
+
+example : exportPages ⟨3, 5, 2, ⟨1, 3, 1, 2⟩⟩ demoFile = .ok [⟨40, 48, 5, [[22, 23]]⟩] := by decide
+
+example : (Stack.ofFile demoFile).getitemTuple [.slice (some 1) none (some 2), .slice (some 1) none none, .int 0]
+    = .ok ⟨1, 4, 2, ⟨0, 1, 1, 2⟩⟩ := by decide
+
+example :
+    let ops : List Op := [.slice (some 1) none (some 2), .crop (some (-2)) none (some 1) none, .index (-1)]
+    (∀ op ∈ ops, op.isBasic = true) ∧
+    ((exportPages (Stack.ofFile demoFile) demoFile).toOption.bind fun out => specRun out ops)
+      = some [⟨40, 48, 5, [[22, 23]]⟩] ∧
+    (((Stack.ofFile demoFile).run ops).toOption.bind fun s' => (exportPages s' demoFile).toOption)
+      = some [⟨40, 48, 5, [[22, 23]]⟩] := by
+  decide +kernel
 
 end Verif.C18
